@@ -206,7 +206,7 @@ func ruleTR(w *world.World, r *report.RuleResult) {
 	var take ssa.CallInstruction
 	for _, fn := range ctor.AnonFuncs {
 		for _, c := range world.Calls(fn) {
-			if f := c.Common().StaticCallee(); f != nil && f.Name() == "TakeSnapshot" {
+			if f := c.Common().StaticCallee(); f != nil && world.BaseName(f) == "TakeSnapshot" {
 				loop, take = fn, c
 			}
 		}
@@ -282,7 +282,7 @@ func ruleRC(w *world.World, r *report.RuleResult) {
 			var sv, se ssa.CallInstruction
 			for _, c := range world.Calls(fn) {
 				if f := c.Common().StaticCallee(); f != nil {
-					switch f.Name() {
+					switch world.BaseName(f) {
 					case "setValues":
 						sv = c
 					case "setExpiry":
@@ -375,7 +375,7 @@ func ruleRC(w *world.World, r *report.RuleResult) {
 					key := world.FuncName(fn) + "|get-state"
 					callsGetState := false
 					for _, c := range world.Calls(fn) {
-						if f := c.Common().StaticCallee(); f != nil && f.Name() == "getState" {
+						if f := c.Common().StaticCallee(); f != nil && world.BaseName(f) == "getState" {
 							callsGetState = true
 						}
 					}
